@@ -2,12 +2,16 @@
 
 Case line (kind `a10`), fields separated by `|`:
 
-  a10 | n=<N> | F=<k:spec,…> | C=<class>;<class>;… | H=<beh,…> | op;op;…
+  a10 | n=<N> [W=1] | F=<k:spec,…> | C=<class>;<class>;… | H=<beh,…> | op;op;…
 
   pool     ids 0..N-1 are atoms (0 Uninitialized, 1 Undefined, 2 None, 3.. distinct ints); every other identity is
            allocated by the run (instances, containers) and printed as #k in order of first appearance
   F        default factories: e<v> returns atom v · f<a.b> returns a fresh list [a, b] · t<a> a fresh pair
-           (fresh empty list, atom a) · r raises; upper case = built into the trait type (Tuple / Union), not instrumented
+           (fresh empty list, atom a) · r[TVAR] raises TraitError / ValueError / AttributeError / RuntimeError ·
+           y<TVAR><a.b> raises when its call ordinal (number of earlier factory calls of the case) is even, otherwise
+           returns a fresh list [a, b] (a failing default followed by a successful retry);
+           upper case first letter = built into the trait type (Tuple / Union), not instrumented.
+           W=1: the run turns UserWarning into an error (the `_warn_on_attribute_error` path)
   class    <base index or ->:<name>=<member>[~k][/hK],…  with member
            c<v> Any(atom) · al<a.b> Any([a,b]) · ad<a.b> Any({..}) · L/D/S<a.b> List/Dict/Set(Int) with default ·
            fa<k> Any(factory=F[k]) · T<k> Tuple(List(Int), Int) · U<k> Union(List(Int), None) · o self() ·
@@ -61,7 +65,7 @@ def atoms():
 
 # kind -> (member code, needs factory spec, copy-promising?, mutable?, label)
 def member_kinds():
-    return ["c", "al", "ad", "L", "D", "S", "fa", "fe", "m", "me", "T", "U", "o"]
+    return ["c", "al", "ad", "L", "D", "S", "fa", "fe", "m", "me", "T", "U", "o", "fr", "mr"]
 
 
 def mk_member(rng, kind, F):
@@ -84,6 +88,10 @@ def mk_member(rng, kind, F):
     if kind == "me":
         F.append("e%d" % rng.choice([4, 5, 6]))
         return "c2~%d" % (len(F) - 1)
+    if kind in ("fr", "mr"):
+        cls = rng.choice("TVAR")
+        F.append(("r" + cls) if rng.random() < 0.35 else ("y" + cls + two()))
+        return ("fa%d" if kind == "fr" else "c2~%d") % (len(F) - 1)
     if kind == "T":
         F.append("T3")
         return "T%d" % (len(F) - 1)
@@ -95,17 +103,24 @@ def mk_member(rng, kind, F):
     raise AssertionError(kind)
 
 
-OVERRIDABLE = {"c": ["v", "vl", "vd"], "al": ["v", "vl"], "ad": ["v", "vd"], "L": ["vl"], "D": ["vd"], "fa": ["v", "vl"],
+OVERRIDABLE = {"fr": ["v", "vl"], "mr": ["v", "vl"], "c": ["v", "vl", "vd"], "al": ["v", "vl"], "ad": ["v", "vd"], "L": ["vl"], "D": ["vd"], "fa": ["v", "vl"],
                "fe": ["v", "vl"], "m": ["v", "vl"], "me": ["v"], "o": ["v", "vl"]}
 
 
-def mk_case(F, classes, H, ops):
-    return "a10|n=%d|F=%s|C=%s|H=%s|%s" % (NATOMS, ",".join("%d:%s" % (i, s) for i, s in enumerate(F)) or "-",
-                                         ";".join(classes), ",".join(H) or "o", ";".join(ops))
+def mk_case(F, classes, H, ops, W=0):
+    return "a10|n=%d%s|F=%s|C=%s|H=%s|%s" % (NATOMS, " W=1" if W else "",
+                                           ",".join("%d:%s" % (i, s) for i, s in enumerate(F)) or "-",
+                                           ";".join(classes), ",".join(H) or "o", ";".join(ops))
 
 
 def corpus():
     return [
+        # a raising default is passed through, stores nothing, is retried (C10_default_raises)
+        mk_case(["yV4.5"], ["-:0=fa0/h0"], ["o"], ["new 0", "get 0 0", "get 0 0", "get 0 0", "new 0", "set 1 0 4"]),
+        mk_case(["yT4"], ["-:0=c2~0/h0"], ["o"], ["new 0", "rd 0 0 0", "get 0 0", "mut 0 0 9", "get 0 0"]),
+        mk_case(["rA"], ["-:0=fa0/h0"], ["o"], ["new 0", "get 0 0", "get 0 0"]),
+        mk_case(["yA4"], ["-:0=c2~0"], ["o"], ["new 0", "get 0 0", "get 0 0"], W=1),
+        mk_case(["rR"], ["-:0=c2~0/h0"], ["o"], ["new 0", "ro 0 0 0", "set 0 0 4", "get 0 0"]),
         # F9: list default of Any overridden by value in a subclass is shared
         mk_case([], ["-:0=al", "0:0=vl4.5"], ["o"], ["new 1", "new 1", "mut 0 0 9", "get 1 0", "new 1", "get 2 0"]),
         mk_case([], ["-:0=ad", "0:0=vd4"], ["o"], ["new 1", "new 1", "mut 0 0 9", "get 1 0"]),
@@ -119,6 +134,18 @@ def corpus():
 
 
 def random_case(rng):
+    while True:
+        c = _random_case(rng)
+        specs = c.split("|")[2][2:].split(",") if c.split("|")[2] != "F=-" else []
+        specs = [e.split(":", 1)[1] for e in specs]
+        # the ordinal-dependent factory (y…) counts every factory call of the case; the Tuple / Union built-in
+        # defaults cannot be counted on the real side: do not mix them
+        if any(sp[0] == "y" for sp in specs) and any(sp[0].isupper() for sp in specs):
+            continue
+        return c
+
+
+def _random_case(rng):
     F = []
     nnames = rng.randint(1, 3)
     kinds = [rng.choice(member_kinds()) for _ in range(nnames)]
@@ -204,7 +231,7 @@ def random_case(rng):
         if i != actor and rng.random() < 0.8:
             for n in range(nnames):
                 ops.append("get %d %d" % (i, n))
-    return mk_case(F, classes, H, ops)
+    return mk_case(F, classes, H, ops, W=1 if (any(sp[:2] in ("rA", "yA") for sp in F) and rng.random() < 0.5) else 0)
 
 
 def exhaustive():
@@ -224,7 +251,11 @@ def exhaustive():
         if k not in ("T", "U", "L", "D", "S", "o"):
             F3 = list(F) + ["f5"]
             shapes.append((F3, ["-:0=%s" % m, "0:0=i~%d" % (len(F3) - 1)], k + "+~"))
-    acts = [["get A 0"], ["mut A 0 9"], ["mui A 0 9"], ["set A 0 4"], ["rd A 0 1", "get A 0"], ["ro A 0 1", "set A 0 5"],
+    for cls in "TVAR":
+        for sp in ("r" + cls, "y" + cls + "4.5"):
+            shapes.append(([sp], ["-:0=fa0/h0"], "fr"))
+            shapes.append(([sp], ["-:0=c2~0/h0"], "mr"))
+    acts = [["get A 0"], ["get A 0", "get A 0", "get A 0"], ["mut A 0 9"], ["mui A 0 9"], ["set A 0 4"], ["rd A 0 1", "get A 0"], ["ro A 0 1", "set A 0 5"],
             ["ra A 1", "get A 0"], ["at A 0 c5", "get A 0"], ["get A 0", "mut A 0 9", "mut A 0 10", "get A 0"],
             ["rd A 0 1", "set A 0 4", "mut A 0 9"]]
     for F, classes, _ in shapes:
@@ -233,6 +264,8 @@ def exhaustive():
             ops = ["new %d" % top, "new %d" % top] + [a.replace("A", "0") for a in act] + \
                   ["get 1 0", "new %d" % top, "get 2 0", "get 1 0"]
             yield mk_case(F, classes, ["o", "o"], ops)
+            if F and F[0][:2] in ("rA", "yA"):
+                yield mk_case(F, classes, ["o", "o"], ops, W=1)
 
 
 def generate(rng, tier):
@@ -256,7 +289,10 @@ class Run:
     def __init__(self, case):
         f = case.lstrip("#").split("|")
         assert f[0] == "a10", case
-        self.N = int(f[1].split("=")[1])
+        hdr = A.kv(f[1])
+        self.N = int(hdr["n"])
+        self.W = hdr.get("W") == "1"
+        self.fraised = []         # (global ordinal, exception class name) of factory calls that raised
         self.F = [] if f[2] == "F=-" else [e.split(":", 1)[1] for e in f[2][2:].split(",")]
         self.class_specs = f[3][2:].split(";")
         self.H = f[4][2:].split(",")
@@ -274,7 +310,15 @@ class Run:
 
     # ----- factories, handlers
     def result_of(self, spec):
+        from traits.api import TraitError
         c = spec[0].lower()
+        n = len(self.fcalls) - 1          # ordinal of this call (the call was recorded just before)
+        if c in ("r", "y"):
+            cls = {"T": TraitError, "V": ValueError, "A": AttributeError, "R": RuntimeError}.get(spec[1:2], RuntimeError)
+            if c == "r" or n % 2 == 0:
+                self.fraised.append((n, exc_name(cls("x"))))
+                raise cls("default factory raises")
+            return [self.A[int(x)] for x in spec[2:].split(".") if x != ""]
         xs = [int(x) for x in spec[1:].split(".") if x != ""]
         if c == "e":
             return self.A[xs[0]]
@@ -455,13 +499,16 @@ class Run:
         self.objs = []
         outs = []
         self.per_op = []       # (op, exc, val, log delta, fcalls delta)
+        self.raised_ops = []   # (op, exc, factory raises during the op, slot stored afterwards, log delta)
         with A.ExcHandlers(False, False), warnings.catch_warnings():
             warnings.simplefilter("ignore")
+            if self.W:
+                warnings.simplefilter("error", UserWarning)
             for op in self.ops:
                 k = op[0]
                 if skip is not None and k != "new" and int(op[1]) == skip:
                     continue
-                log0, f0 = len(self.log), len(self.fcalls)
+                log0, f0, r0 = len(self.log), len(self.fcalls), len(self.fraised)
                 exc, val, read = None, A, A
                 self.cur = None
                 try:
@@ -522,6 +569,9 @@ class Run:
                     self.failed_defaults.add(self.cur)      # the factory ran but no default was established
                 if k == "get":
                     read = val
+                stored = (self.cur is not None and
+                          ("x%d" % self.cur[1]) in self.objs[self.cur[0]][0].__dict__)
+                self.raised_ops.append((op, exc, self.fraised[r0:], stored, self.log[log0:]))
                 self.per_op.append((op, exc, read, self.log[log0:], self.fcalls[f0:]))
                 if record:
                     idx = {id(o): i for i, (o, _) in enumerate(self.objs)}
@@ -672,6 +722,21 @@ def run_impl(case):
                     hits.append(_hit("default-not-stable:" + lab, "a later read returned a different object"))
                 if dfc:
                     hits.append(_hit("default-recomputed-on-read:" + lab, "a later read ran the default factory again"))
+    # ---- a raising default: passed through (same class; UserWarning instead of AttributeError when warnings are
+    # errors), nothing stored, nobody notified
+    for (op, exc, raised, stored, dlog) in real.raised_ops:
+        if not raised or op[0] not in ("get", "mut", "mui"):
+            continue
+        cls = raised[-1][1]
+        tags.add("default-raises:" + cls + (":W" if real.W else ""))
+        want = "Other" if (cls == "AttributeError" and real.W) else cls
+        if exc is None or exc_name(exc) != want:
+            hits.append(_hit("raising-default:wrong-exception:" + cls, "the default factory raised %s, the read raised %s" % (
+                cls, "nothing" if exc is None else exc_name(exc))))
+        if stored:
+            hits.append(_hit("raising-default:stored:" + cls, "a value was stored although the default factory raised"))
+        if dlog:
+            hits.append(_hit("raising-default:notified:" + cls, "a handler was called although the default factory raised"))
     # ---- freshness: containers reachable from two instances' (never assigned) values are disjoint
     owner = {}
     for idx, (o, ci) in enumerate(real.objs):
@@ -689,7 +754,11 @@ def run_impl(case):
                                      no_shrink=False))
                 owner.setdefault(id(c), (idx, nm))
     # ---- non-interference: twin run without the acting instance's operations
-    if len(actors) == 1:
+    if any(sp[0] == "y" for sp in real.F):
+        # a factory whose outcome depends on how often factories were called before is shared state of the user's
+        # own making: the twin run (fewer calls) legitimately sees other outcomes
+        tags.add("twin-skipped:stateful-factory")
+    elif len(actors) == 1:
         actor = next(iter(actors))
         twin = Run(case)
         twin.execute(skip=actor, record=False)
